@@ -9,7 +9,7 @@ import ast
 
 from vk import fabio
 from vk.fabio import Num, Ratio, C, N, D, ArrV, ListAcc
-from vk.model import AnalysisError, norm, loc
+from vk.model import AnalysisError, norm, loc, walk_no_nested
 
 PC = "amr_kitchen/plotfile_cooker.py"
 
@@ -227,3 +227,37 @@ def check_reader(ctx, prefix, fi, kind, mode, slots):
         ctx.check(ok, f"{prefix}.RETURN-LIST", site, "returns the list of every FAB's array in file order",
                   f"returns {[e.value.text() for e in r]}")
     return res
+
+def selector_identity(ctx, P, fi=None):
+    """the field selector a stream hands to its readers is the requested one (see the rule text)"""
+    if fi is None:
+        fi, _ = stream_dispatch(ctx.prog, P)
+    site = fi.site
+    p = fi.params
+    # SELECTOR-IDENTITY: the field selector the readers get is the one that was requested — converted (np.array,
+    # list) but never re-ordered or de-duplicated: entry k of the result is the k-th requested field
+    REORDER = {"np.unique", "numpy.unique", "sorted", "np.sort", "numpy.sort", "set", "frozenset", "reversed", "np.flip",
+               "numpy.flip", "dict.fromkeys", "np.argsort"}
+    KEEP = {"np.array", "np.asarray", "numpy.array", "numpy.asarray", "list", "tuple", "np.atleast_1d", "int"}
+    for n in walk_no_nested(fi.node):
+        if isinstance(n, ast.Assign) and any(norm(t) == "self.farg" for t in n.targets):
+            v = n.value
+            chain = []
+            while isinstance(v, ast.Call) and v.args:
+                chain.append(norm(v.func))
+                v = v.args[0]
+            base_ok = norm(v) in ("self.farg", p[3] if len(p) > 3 else "")
+            bad = [c for c in chain if c in REORDER or c.endswith((".sort", ".unique"))]
+            unk = [c for c in chain if c not in REORDER and c not in KEEP]
+            if isinstance(v, ast.Subscript) and isinstance(v.slice, ast.Slice) and v.slice.step is not None:
+                bad.append(norm(v))
+            ctx.decide(base_ok and not bad and not unk, bool(bad) or (base_ok and not unk), f"{P}.SELECTOR-IDENTITY", site,
+                       "the stream's field selector is the requested one (type conversion only)",
+                       f"the stream's field selector is rebuilt as `{norm(n.value)}`: {', '.join(bad) or 'this'} re-orders or "
+                       f"de-duplicates the requested fields, while callers read entry k of the result as the k-th "
+                       f"requested field", key=f"farg:{norm(n.value)[:40]}", where=loc(fi, n))
+        elif isinstance(n, ast.Expr) and isinstance(n.value, ast.Call) and isinstance(n.value.func, ast.Attribute) and \
+                norm(n.value.func.value) == "self.farg" and n.value.func.attr in ("sort", "reverse"):
+            ctx.finding(f"{P}.SELECTOR-IDENTITY", site, f"`{norm(n)}` re-orders the requested fields in place",
+                        key="farg:inplace", where=loc(fi, n), semantic=True)
+
